@@ -225,7 +225,7 @@ def r3(ctx):
         ok = ("given_chromosomes", True) in ga and sub
         ctx.ob(run.qual, "early-exit-only-when-all-requested-seen", ok, run.loc(ex), "the chromosome loop stops early only when every requested chromosome has been seen" if ok else "the chromosome loop can stop before all requested chromosomes were processed (guards: %s)" % sorted(t for t, p in ga if "chrom" in t))
         sd = [c_ for c_ in ctx.prog.calls_in(loop) if u(c_.func) == "seen_chromosomes.add"]
-        ok2 = len(sd) == 1 and u(sd[0].args[0]) == "chromosome" and cfg.dominates(cfg.node_containing(sd[0]), cfg.node_of(ex))
+        ok2 = (None if not sd else (len(sd) == 1 and u(sd[0].args[0]) == "chromosome" and cfg.dominates(cfg.node_containing(sd[0]), cfg.node_of(ex))))
         ctx.ob(run.qual, "seen-set-tracks-every-chromosome", ok2, run.loc(ex), "seen_chromosomes records every chromosome of the file as it is met" if ok2 else "seen_chromosomes does not record every chromosome")
     # same operand: the stats object filled by get_phase_blocks is the one aggregated
     ok = False
@@ -333,7 +333,7 @@ def r5(ctx):
         ctx.ob(fi.qual, "resorted-after:%s" % u(c)[:50], bad is None, fi.loc(c), "after %s the worklist is re-sorted with the defining key before it is popped or peeked again" % u(c)[:50] if bad is None else "%s adds a block without re-sorting the worklist by its defining key: overlapping phase sets can both be emitted whole" % u(c)[:50], cfg.describe_path(bad))
     ctx.require(len(grows) >= 1, "no insertion into the worklist found")
     filt = [(s, v) for s, v in util.assignments_to(fi.node, wl) if isinstance(v, ast.ListComp)]
-    ok = len(filt) == 1 and not filt[0][1].generators[0].ifs == [] and u(filt[0][1].generators[0].iter) == wl
+    ok = (None if not filt else (len(filt) == 1 and not filt[0][1].generators[0].ifs == [] and u(filt[0][1].generators[0].iter) == wl))
     ctx.ob(fi.qual, "filter-keeps-order", ok, fi.loc(), "singleton filtering keeps the sorted order (list comprehension over the sorted list)" if ok else "the singleton filter no longer preserves the sorted order")
 
 
